@@ -41,6 +41,12 @@ def drains(F, fn):
             if not ok:
                 problems.append("returns from inside the loop when %s (result %s): elements that were not read stay in the input" % (when, S.show(r)[:60]))
             continue
+        if any(t[0] == "abort" for t in p.trace):
+            # try_for_each stopped at a callback error: acceptable only when the function fails with it
+            r = p.result
+            if not (r is not None and r[0] == "ctor" and r[1] == S.ERR):
+                problems.append("the iteration is abandoned at an error when %s but the function goes on (result %s): elements that were not read stay in the input" % (when, S.show(r)[:60]))
+            continue
         if any(t[0] == "break" for t in p.trace) and not none_seen:
             problems.append("the loop is left when %s although the container is not known to be exhausted" % when)
     return problems, n_loops
